@@ -28,7 +28,7 @@ pruned branch, a flipped bit of the hash stored in the proof root, level-lift of
 stored hash), proof root turned into an ordinary cell with the same data, expected hash random / one bit flipped; each either
 with the stale proof-root data or with the proof root recomputed (self-consistent forgery).
 Account mutants: claimed state = pruned branch carrying the committed hash / another account's cell / one flipped bit;
-address of another account / absent address; other block hash; state proof of a different state; header forgery with a forged
+address of another account / absent address; the asked account's branch pruned away and "no state" claimed; other block hash; state proof of a different state; header forgery with a forged
 state; wrong number of roots.
 
 Deliberately NOT asserted
@@ -661,6 +661,20 @@ def check_account(case):
         Pf = rc.merkle_proof(Bp)
         roots = [rc.RCell(Pf.bits, [Bf], True), rc.merkle_proof(Sp2)]
         claimed = acc2
+    elif kind in ('path-pruned-claim-empty', 'path-pruned-claim-none'):
+        # the state proof reveals ANOTHER account (or none): the branch of the asked account is pruned, so the proof says
+        # nothing about it; claiming that it does not exist (empty cell / no state) must not be accepted
+        others = [a for a in case['accounts'] if a['id'] != target['id']]
+        c2 = dict(case)
+        if others:
+            c2['target'] = next(i for i, a in enumerate(case['accounts']) if a['id'] == others[mut['a'] % len(others)]['id'])
+            _, Sp2, _, _, _, _, t2 = build_account_case(c2)
+            if t2['id'] == target['id']:
+                raise HarnessError('other account not selected')
+        else:
+            Sp2 = prune(S, {c.repr_hash() for c in rc.topo([S])} - {S.repr_hash(), S.refs[1].repr_hash()}, 1)
+        roots = [roots[0], rc.merkle_proof(Sp2)]
+        claimed = rc.RCell('', [], False) if kind.endswith('empty') else None
     elif kind == 'one-root':
         roots = roots[:1]
     elif kind == 'three-roots':
@@ -672,7 +686,7 @@ def check_account(case):
     boc = refboc.encode(roots, has_crc=bool(case.get('crc', True)), has_idx=bool(case.get('idx', False)))
     blk = BlockIdExt(wc, -2 ** 63, case['seqno'], block_hash, attacker_hash('file'))
     address = Address((wc, bytes.fromhex(addr_id)))
-    ok, claimed_lib = call(dag.lib_from_rcell, claimed, 'builder')
+    ok, claimed_lib = (True, None) if claimed is None else call(dag.lib_from_rcell, claimed, 'builder')
     if not ok:
         if honest:
             return Fail(f'honest-proof/construction-raises/{exc_sig(claimed_lib)}', repr(claimed_lib))
@@ -691,7 +705,7 @@ def check_account(case):
     return None
 
 
-ACC_MUTS = ['claimed-pruned', 'claimed-pruned', 'claimed-raw-pruned', 'claimed-other-account', 'claimed-bitflip', 'claimed-child-changed',
+ACC_MUTS = ['path-pruned-claim-empty', 'path-pruned-claim-empty', 'path-pruned-claim-none', 'claimed-pruned', 'claimed-pruned', 'claimed-raw-pruned', 'claimed-other-account', 'claimed-bitflip', 'claimed-child-changed',
             'other-address', 'other-block-hash', 'other-state', 'forged-header', 'forged-header', 'one-root', 'three-roots', 'swapped-roots']
 
 
